@@ -72,7 +72,11 @@ class Prop:
             "data / data_id / node_id (present, ambiguous, absent), Tree.copy, Node.copy; (c) fault injection in the model's vocabulary: for "
             "sort (x reverse x deep, under every parent) and the in-place filter (verdict tables incl. skip/select/stop) one clean run "
             "records the invocations of the callback, then one alternative per invocation k answers `raise` there; calc_data_id raising on the "
-            "data of the k-th invocation for add / shortcuts / set_data / rename / from_dict (3 levels) / del; (d) probes through the raw API "
+            "data of the k-th invocation for add / shortcuts / set_data / rename / from_dict (3 levels) / del; (c2) call-INDEX faults of calc_data_id inside from_dict with the same object passed "
+            "several times (every k): call-index injection on the implementation must equal the run with the k-th calling item poisoned "
+            "(FaultIndex.step_k), which is what the model evaluates; (c3) the call ORDER: the invocations of the sort key (x reverse x deep x raising "
+            "keys) and of the filter predicate (verdict tables incl. stop / raise) recorded on the implementation against FaultIndex.sort_calls / "
+            "filter_calls evaluated by vm_compute; (d) probes through the raw API "
             "on bigger trees (clones, typed): ~30 mutating and ~50 read-only operations (save to StringIO and to a file, load, to_dict_list, "
             "to_list_iter, from_dict, visit x 3 orders, find_all / find_first by match / data / data_id / node_id, filtered / copy with "
             "predicates, format, print, iterators, to_dot, to_dotfile, to_mermaid_flowchart, to_rdf_graph, diff x ordered x reduce), each run "
@@ -101,10 +105,25 @@ class Prop:
               "removed nodes; Tree.copy / Node.copy leave all existing trees untouched.  Tied to /repo on every run: exhaustive invalid-argument "
               "enumeration and fault injection at every invocation, compared state by state with the model, plus a model-independent oracle "
               "(deep pointer-level snapshot equality after refusals and read-only operations, C01-C03 predicates after every step)."),
-        note=("Trusted: Coq kernel + vm_compute; hand-written model Mut/Machine.v (tied by the correspondence only); harness/mut.py, mut_c13.py. "
-              "The model describes the code as repaired by fixes/ (series in fixes/SERIES.txt). Callbacks that the model does not have "
-              "(mappers of save/load/to_dict_list/from_dict, visit, find match, format/dot/mermaid mappers, predicates of the copying filter) "
-              "are covered by the oracle only (probes), not by theorems."),
+        note=("Trusted: Coq kernel + vm_compute; hand-written model Mut/Machine.v (tied by the correspondence only: that Python's refusals are "
+              "free of partial effects is established by comparing the state after every refused step with the model, by the deep-refusal "
+              "snapshot oracle and by the sensitivity mutations - the refusal theorem itself is, for the single-phase operations, a fact about a "
+              "model written validate-first); harness/mut.py, mut_c13.py.  The model describes the code as repaired by fixes/.  "
+              "Call indexes: the machine's callbacks are argument-keyed tables; 'the k-th invocation raises whatever its argument' is "
+              "FaultIndex.step_k (poisoned operation) - for calc_data_id inside from_dict, where one object can be passed twice, the harness runs "
+              "the implementation both with call-index injection and with the poisoned items, requires identical behaviour and lets run_mut "
+              "evaluate the poisoned history; FaultIndex.sort_calls / filter_calls (the call ORDER of sort key and filter predicate) are compared with the "
+              "invocations recorded on the implementation (cases of kind 'order', vm_compute).  "
+              "Read-only operations are pure functions of a forest in their models (Traverse.v, DictList.v, Filter.v): 'the tree is unchanged' "
+              "cannot be a theorem there and is NOT claimed as one - it is checked on the implementation only, by the snapshot oracle of "
+              "run_probes (~50 read-only calls, clean and with an exception at every invocation k of their callback, deep pointer snapshot "
+              "before/after, and the exception must escape: no result / no tree is returned).  Stated as theorems for these callbacks: a "
+              "visitor raising at invocation k ends the traversal after exactly k+1 calls and is re-raised (C06 model); from_dict returns a "
+              "tree only if the mapper raised on no item (C14 model); Node.from_dict(mapper) on an attached node at machine level "
+              "(FaultReadOnly.op_from_dict_m, rollback of D48; tied by the probes 'Node.from_dict(mapper) ...' only, the op vocabulary of "
+              "run_mut has no mapper).  Oracle only, no theorem: predicates of the copying filter (filtered / copy(predicate=): Filter.v has no "
+              "exception exit), find(match=), serialisation mappers of save / to_dict_list / to_list_iter, load mappers, format / dot / mermaid "
+              "mappers, invalid-type arguments (D80-D82: outside the vocabulary of Machine.op)."),
         technique="Coq proof about an executable Gallina model + differential correspondence check (vm_compute) + Python oracle with fault injection",
         design_ref="DESIGN.md section 6 (C13), 3.2, 3.4",
     )
@@ -187,6 +206,39 @@ class Prop:
                     hs, _ = M.calc_fault_hists(univ, setup, op, fn="name")
                     for h in hs:
                         yield dict(kind="hist", univ=h["univ"], ops=h["ops"], label="calc-fault")
+        # (c3) the call ORDER the model's call indexes refer to
+        oshapes = PROBE_SHAPES[:2] if quick else PROBE_SHAPES + [s_ for s_ in H.forests(3)]
+        for shape in oshapes:
+            st = M.two_tree_setup(shape, "distinct", False)
+            univ, setup, nodes, other = st
+            n = H.shape_size(shape)
+            ids = list(range(1, n + 1))
+            ops = []
+            for p in [0] + ids[:2]:
+                for rev in (False, True):
+                    for deep in (False, True):
+                        ops.append(["sort", 0, p, {"tbl": {str(i): "abc"[(i * 7 // 3) % 3] for i in ids}}, rev, deep])
+                ops.append(["sort", 0, p, {"tbl": {str(ids[-1]): None}}, False, True])
+                ops.append(["sort", 0, p, {"tbl": {str(ids[n // 2]): None}}, True, True])
+                for vd in ({}, {str(i): ["F", "T", "skip_keep", "select", "F", "stop"][i % 6] for i in ids},
+                           {str(i): ["T", "skip", "F", "raise"][i % 4] for i in ids}, {str(i): ["F", "F", "T"][i % 3] for i in ids}):
+                    ops.append(["filter", 0, p, vd])
+            for i in ids:                       # a raising key at every node: the invocations after it must not happen
+                for rev in (False, True):
+                    ops.append(["sort", 0, 0, {"tbl": {str(i): None, **{str(j): "abc"[(j * 5 // 2) % 3] for j in ids if j != i}}}, rev, True])
+                ops.append(["filter", 0, 0, {str(i): "raise", **{str(j): ["T", "F", "T", "skip_keep"][j % 4] for j in ids if j != i}}])
+            yield dict(kind="order", univ=univ, setup=setup, ops=ops, label="call order")
+        # (c2) call-index faults of calc_data_id in from_dict with the SAME object passed several times
+        for shape in (((),), ((), ((),))) if quick else (((),), ((), ((),)), (((), ()),)):
+            st = M.two_tree_setup(shape, "distinct", False)
+            univ, setup, nodes, other = st
+            f1, f2, f3, fresh = (univ.index(x) for x in ("s:f1", "s:f2", "s:f3", "e:9"))
+            leaf = H.shape_size(shape)
+            for items in ([[f1, None, []], [f2, None, [[f1, None, []]]]],
+                          [[f1, None, [[f2, None, []], [f3, "Z", [[f2, None, []]]]]], [f2, None, [[f1, None, []]]]],
+                          [[f1, None, []], [f1, "other", []], [f2, None, [[f1, None, [[f1, "deep", []]]]]]])[:2 if quick else 3]:
+                for k in range(M.count_calling_items(items) + 1):
+                    yield dict(kind="fdk", univ=univ, setup=setup, ti=0, p=leaf, items=items, k=k, fresh=fresh, label="from_dict call index")
         # (d) probes through the raw API
         pshapes = PROBE_SHAPES[:2] if quick else PROBE_SHAPES + [s for s in H.forests(3)]
         for shape in pshapes:
@@ -197,7 +249,7 @@ class Prop:
                         continue
                     yield dict(kind="probe", univ=st[0], setup=st[1], typed=ty, label=lname + ("/typed" if ty else ""))
         # (e) random histories
-        nrand = 12 if quick else 160
+        nrand = 8 if quick else 160
         for i in range(nrand):
             n_ops = rng.randint(8, 25 if quick else 40)
             h = (mut.gen_malformed if i % 2 == 0 else mut.gen_random)(rng, n_ops)
@@ -207,6 +259,13 @@ class Prop:
         if desc["kind"] == "alts":
             for alt in desc["alts"]:
                 yield dict(kind="hist", univ=desc["univ"], ops=desc["setup"] + [alt])
+            return
+        if desc["kind"] == "fdk":
+            return
+        if desc["kind"] == "order":
+            if len(desc["ops"]) > 1:
+                for o in desc["ops"]:
+                    yield dict(kind="order", univ=desc["univ"], setup=desc["setup"], ops=[o], label="call order")
             return
         if desc["kind"] == "probe":
             # one probe at a time (the names of the failing probes), then the same on the smallest two-tree setup
@@ -245,6 +304,23 @@ class Prop:
             if fails:
                 op, (si, name, msg) = fails[0]
                 fail = f"{name}: {msg} [op {op}]"
+        elif desc["kind"] == "order":
+            r = M.replay13(dict(univ=desc["univ"], ops=desc["setup"]))
+            term, obs = mut.coq_case(r), r.obs
+            msg, ncmp = M.call_order_check(desc["univ"], desc["setup"], desc["ops"])
+            stats = dict(kind="callback call order", compared=ncmp)
+            nontrivial = ncmp > 0
+            if msg:
+                fail = "call-order: " + msg
+        elif desc["kind"] == "fdk":
+            r, msg = M.run_from_dict_k(desc["univ"], desc["setup"], desc["ti"], desc["p"], desc["items"], desc["k"], desc["fresh"])
+            term, obs = mut.coq_case(r), r.obs
+            stats = dict(kind="from_dict call-index fault", k=desc["k"], result=H.ERR_NAMES.get(r.obs[-1][0][1], "ok") if r.obs[-1][0][0] else "ok")
+            nontrivial = r.obs[-1][0][0] == 1
+            if r.fails:
+                fail = f"{r.fails[0][1]}: {r.fails[0][2]}"
+            elif msg:
+                fail = "call-index: " + msg
         elif desc["kind"] == "probe":
             r = M.replay13(dict(univ=desc["univ"], ops=desc["setup"]))
             term, obs = mut.coq_case(r), r.obs
@@ -278,7 +354,7 @@ class Prop:
             obs = [-3]
             fail = fail or "struct: the tree is nested too deeply to be observed (runaway copy)"
         return Case(desc=desc, coq_input=term, impl_obs=obs, oracle_fail=fail, nontrivial=nontrivial,
-                    key=H.digest([desc["univ"], desc.get("setup"), desc.get("alts"), desc.get("ops"), desc["kind"], desc.get("only")]), stats=stats)
+                    key=H.digest([desc["univ"], desc.get("setup"), desc.get("alts"), desc.get("ops"), desc["kind"], desc.get("only"), desc.get("items"), desc.get("k")]), stats=stats)
 
 
 PROP = Prop()
